@@ -10,7 +10,7 @@ ENGINE = "net"
 LEVEL = "exploration"
 RULE = ("Each case draws a history of up to 40 (thorough 120) operations on a real hio Server/ServerTls and 2-3 Clients/ClientTls on the "
         "fake kernel: client service (connect / handshake progress), client reopen, client close, client abandons a connection "
-        "(close so the server side is cut off), server service, net delivery, server close, server reopen, server reopen whose bind() fails (EADDRINUSE / EADDRNOTAVAIL / EACCES), a burst of full service rounds (so connects and TLS handshakes complete); every history ends with a server close. Client ports come from "
+        "(close so the server side is cut off; as RST with unread data or as a clean FIN), server service, net delivery, server close, server reopen, server reopen whose bind() fails (EADDRINUSE / EADDRNOTAVAIL / EACCES), a burst of full service rounds (so connects and TLS handshakes complete); every history ends with a server close. Client ports come from "
         "a pool of two, so a new connection regularly arrives from the same (host, port) while the old Remoter is still in the "
         "server's table; TLS clients are left mid-handshake by simply not servicing them. Oracle, evaluated after every close in "
         "the history: after server.close() no socket the server created or accepted (listen, accepted, TLS-wrapped) is open in "
